@@ -10,7 +10,10 @@ if [ ! -d $BED/repo ]; then git -C /repo worktree add --detach $BED/repo HEAD >/
 git -C $BED/repo checkout -q --detach $(git -C /repo rev-parse HEAD)
 git -C $BED/repo checkout -q -- . ; git -C $BED/repo clean -fdq -e target
 mkdir -p $BED/verif
-rsync -a --delete --exclude .git --exclude .build --exclude replays --exclude evidence /verif/ $BED/verif/
+# committed state of /verif only (other people's uncommitted work in progress is not part of the experiment)
+rm -rf $BED/verif.new && mkdir -p $BED/verif.new && git -C /verif archive HEAD | tar -x -C $BED/verif.new
+rsync -a --delete --exclude .build --exclude lean/.lake --exclude replays --exclude evidence $BED/verif.new/ $BED/verif/
+rm -rf $BED/verif.new
 mkdir -p $BED/verif/evidence
 sed -i "s#path = \"/repo\"#path = \"$BED/repo\"#" $BED/verif/harness/Cargo.toml
 sed -i "s#/verif/.build/target#$BED/verif/.build/target#" $BED/verif/harness/.cargo/config.toml
